@@ -305,10 +305,15 @@ Definition fix_stmt (ss : list stmt) (this : N) (s : stmt) : res stmt :=
     match ov with
     | VPyNone => Internal E_ATTR
     | _ =>
+      let digits := match s_operand s with OImmediate _ => imm_digits (s_instr s) | _ => 4 end in
       do s1 <- (match ov with
-                | VExpr l op r _ true => do a <- calc_offset ss l op r; Ok (with_add s a)
+                | VExpr l op r _ true =>
+                    do a <- calc_offset ss l op r; do a' <- as_translation_error (fit_value a digits true); Ok (with_add s a')
                 | VAddr k => match nth_stmt ss k with
-                             | Some t => Ok (with_add s (cp_addr (s_pkg t)))
+                             | Some t => match cp_addr (s_pkg t) with
+                                         | VPyNone => Internal E_ATTR
+                                         | av => do a' <- as_translation_error (fit_value av digits true); Ok (with_add s a')
+                                         end
                              | None => Internal E_INDEX
                              end
                 | _ => Ok s
